@@ -27,6 +27,7 @@ import Tie.Binders
 #print axioms Sourcer.C04_skip_maximal
 #print axioms Sourcer.C04_lengthening
 #print axioms Sourcer.C04_reindexing
+#print axioms Sourcer.C04_lengthening_instance
 #print axioms Sourcer.C07_memo_transparent
 #print axioms Sourcer.C07_started_only_on_miss
 #print axioms Sourcer.C07_hit_returns_stored
@@ -82,6 +83,7 @@ import Tie.Binders
 #print axioms Sourcer.C05_rule_outcome
 #print axioms Sourcer.C05_where_apply_class
 #print axioms Sourcer.C05_shadowing_breaks_it
+#print axioms Sourcer.C05_specification_layers_agree
 #print axioms Sourcer.C06_call_is_body_with_arguments
 #print axioms Sourcer.C06_arguments_bind_parameters
 #print axioms Sourcer.C06_call_means_its_expansion_closed_arguments
